@@ -1,12 +1,14 @@
 """Pool: wildcards, mixed content, attribute maps."""
 from dataclasses import dataclass, field
+
+from sim.pool.base import StableHashMeta
 from typing import Optional
 
 __NAMESPACE__ = "urn:w"
 
 
 @dataclass
-class AnyBox:
+class AnyBox(metaclass=StableHashMeta):
     class Meta:
         name = "anyBox"
         namespace = "urn:w"
@@ -18,7 +20,7 @@ class AnyBox:
 
 
 @dataclass
-class OtherBox:
+class OtherBox(metaclass=StableHashMeta):
     class Meta:
         name = "otherBox"
         namespace = "urn:w"
@@ -33,7 +35,7 @@ class OtherBox:
 
 
 @dataclass
-class LocalBox:
+class LocalBox(metaclass=StableHashMeta):
     class Meta:
         name = "localBox"
         namespace = "urn:w"
@@ -47,7 +49,7 @@ class LocalBox:
 
 
 @dataclass
-class TwoWild:
+class TwoWild(metaclass=StableHashMeta):
     """Two wildcards: the per-field namespace memo decides which one takes an element."""
 
     class Meta:
@@ -63,7 +65,7 @@ class TwoWild:
 
 
 @dataclass
-class Para:
+class Para(metaclass=StableHashMeta):
     class Meta:
         name = "p"
         namespace = "urn:w"
@@ -76,7 +78,7 @@ class Para:
 
 
 @dataclass
-class Bold:
+class Bold(metaclass=StableHashMeta):
     class Meta:
         name = "b"
         namespace = "urn:w"
